@@ -317,8 +317,6 @@ MUTANTS: dict[str, dict[str, list[tuple[str, str, str]]]] = {
                     self._results.put_nowait(task.failure(err))""",
                                             """                except forml.AnyError as err:
                     LOGGER.warning('Task failed: %s', err)""")],
-        'component-loads-not-serialized': [('forml/setup/_importer.py', '_LOADING = threading.RLock()  # guards',
-                                            '_LOADING = contextlib.nullcontext()  # guards')],
         'overflow-is-not-a-cast-error': [('forml/io/dsl/_struct/kind.py', 'except (ValueError, TypeError, OverflowError) as err:',
                                           'except (ValueError, TypeError) as err:')],
         'unknown-application-remembered': [('forml/runtime/_service/dispatch.py',
